@@ -8,7 +8,19 @@ import LenaModel.Lemmas.C12Csv
 All theorems are about the executable model `LenaModel/Model/C12.lean` (+ `NArr.lean`) over exact rationals, for
 histograms of any dimension and shape, any contents, targets, weights and field names.  "Up to rounding" and the
 printed precision of CSV numbers are floating-point facts outside the model (DESIGN.md section 8); the harness
-checks them numerically on the real code. -/
+checks them numerically on the real code.
+
+Vocabulary used in the statements (defined, with their helper lemmas, in `Lemmas/C12*.lean`):
+* `Hist.WF h` — `h` has at least one axis and its bins have the shape of its edges (`HasShape h.nbins h.bins`);
+  `Hist.Valid` adds that the edges pass `check_edges_increasing` (what `histogram.__init__` accepts);
+* `cells bins` — what `iter_bins(bins)` yields, `(index, content)` in order (`NArr.lean`); `get? bins idx` — `bins[i0][i1]…`;
+* `cellEdgesRef axes idx` — the edges `((lo, hi), …)` of the cell with index `idx`;
+* `ValidRanges axes rg`, `rangePred`, `selAll` — one valid `(low, up)` index range per axis, and the indices it selects;
+* `isErrField f` — the field name starts with `error_`; `ErrorFieldOf c f` — `f` is `error_<c>` or `error_<c>_<suffix>`;
+* `graphValue`, `pointOf mode mv edges v` — the point `hist_to_graph` makes of a cell: coordinates by mode, then value(s);
+* `bins1d vals`, `bins2d vals` — bins given as (lists of) lists of numbers; `rowsFor ys yLast dup x r` — the CSV rows
+  written for one `x`: one per `y` bin plus, when duplicating, the last one repeated at the last `y` edge;
+  `cellRow axes (idx, v)` — lower edges of the cell, then its content. -/
 
 namespace Lena.C12
 open Lena Lena.NArr
@@ -340,7 +352,7 @@ theorem iter_cells_agrees (h : Hist) (wf : h.WF) :
   apply mapM_map_ok
   intro p hp
   obtain ⟨h1, h2⟩ := cell_facts h wf p hp
-  simp [h1, h2, bind, Except.bind, pure, Except.pure]
+  simp [h1, h2, pure, Except.pure]
 
 /-- the empty `ranges` tuple means no restriction, like `None` -/
 theorem iter_cells_empty_ranges (h : Hist) : iterCells h (some []) = iterCells h none := rfl
@@ -885,7 +897,7 @@ structure Hist.Valid (h : Hist) : Prop where
   not_single_nested : ∀ ax, h.edges ≠ .nested [ax]
 
 theorem isclose1_self (t : Tol) (hr : 0 ≤ t.rel) (x : Q) : isclose1 t x x = true := by
-  simp only [isclose1, decide_eq_true_eq, Rat.abs]
+  simp only [isclose1, Rat.abs]
   have : x - x = 0 := by grind
   rw [this]
   simp
